@@ -10,7 +10,7 @@ from . import build, checks, run
 
 pool = build.pool
 STACK_IDS = [s.id for s in pool.STACKS]
-KIND_NAMES = ['trunc', 'tear', 'iothrow', 'word', 'pair']
+KIND_NAMES = ['trunc', 'tear', 'iothrow', 'word', 'pair', 'prestate']
 PROP = 'C08'
 # (build, dumps per stack quick, thorough)
 BUILDS = [('rel-plain', 3, 12), ('dbg-asan', 2, 6), ('rel-asan', 1, 6)]
@@ -195,7 +195,7 @@ def check(tier, seed):
               'every header/footer/tag/width word x {each single-bit flip, every layer tag and footer tag, +-0x20000000, 0, ~0, '
               'both magics, other legal width, 0..16 for the width word, 8 seeded random words} - each of these met by the writer\'s own '
               'type AND by every other pool type with the same on-disk signature whose fault-free load succeeds (other interpolator, '
-              'other float width) - and every reader stack whose format signature differs (must reject the intact dump); distinct = distinct (stack, dump seed, kind, position, value, reader); every case injects a '
+              'other float width), as is the intact dump behind a stream that is already in a failed state (failbit, badbit, eofbit and their combinations: prestate) - and every reader stack whose format signature differs (must reject the intact dump); distinct = distinct (stack, dump seed, kind, position, value, reader); every case injects a '
               'fault, so every case is non-trivial'),
         samples=samples,
         exhaustive=True,
